@@ -217,6 +217,53 @@ fn check_type(ty: SignType, name: &str, expect: Option<(u8, u8, u32, u32)>, rep:
             }
         }
     }
+    // ... whereas a 16-byte chunk the sign does NOT TAKE for a configuration block at all (its first byte is neither of the
+    // two families: noise on the bus, a damaged copy of the block) changes nothing: the sign goes on to report this type
+    // and this type's dimensions — in the same transfer (count 1: the chunk was not counted) and on a retry
+    if block.len() == 16 {
+        let own = 0x0024u16;
+        for other_family in [0xA1u8, 0x00, 0x0F, 0xFF, 0x05, 0x09, 0x14, block[0] ^ 0x0C] {
+            if other_family == 4 || other_family == 8 {
+                continue;
+            }
+            let mut noise = block.clone();
+            noise[0] = other_family;
+            for variant in 0..2 {
+                let mut msgs = vec![RefMsg::Request(own, O_RECV_CFG), RefMsg::Data { offset: 0, data: block.clone() }];
+                if variant == 0 {
+                    msgs.push(RefMsg::Data { offset: 0, data: noise.clone() });
+                    msgs.push(RefMsg::Count(1));
+                } else {
+                    msgs.push(RefMsg::Count(1));
+                    msgs.push(RefMsg::Query(own));
+                    msgs.push(RefMsg::Request(own, O_RECV_CFG));
+                    msgs.push(RefMsg::Data { offset: 0, data: noise.clone() });
+                    msgs.push(RefMsg::Data { offset: 0, data: block.clone() });
+                    msgs.push(RefMsg::Data { offset: 0, data: noise.clone() });
+                    msgs.push(RefMsg::Count(1));
+                }
+                msgs.push(RefMsg::Query(own));
+                let mut pair = Pair::new(own, false);
+                let mut trouble: Option<String> = None;
+                for m in &msgs {
+                    let out = vsx::step(&mut pair, m);
+                    if out.panic.is_some() {
+                        trouble = Some("panicked".into());
+                        break;
+                    }
+                    if let Some((cls, d)) = out.diffs.first() {
+                        trouble = Some(format!("{}: {}", cls, d));
+                        break;
+                    }
+                }
+                rep.count("virtual_sign_noise_chunk_next_to_the_block");
+                if trouble.is_some() || pair.sign.sign_type() != Some(ty) {
+                    let what = format!("after this type's block and a 16-byte chunk of family {:02X} next to it ({}), the virtual sign records type {:?}{}", other_family, if variant == 0 { "same transfer" } else { "retry" }, pair.sign.sign_type(), trouble.map(|t| format!(" ({})", t)).unwrap_or_default());
+                    rep.violation(MON_T, "virtual_sign_loses_type_to_a_chunk_it_does_not_take", &format!("{}:{:02X}:{}", name, other_family, variant), format!("{}: {}", name, what), J::obj(vec![("type", J::s(name)), ("noise_chunk", J::hex(&noise)), ("history", J::Arr(msgs.iter().map(|m| J::s(m.show())).collect())), ("observed", J::s(what.clone()))]));
+                }
+            }
+        }
+    }
     // ... and what the sign derived from the block stays put through whatever happens to PIXEL transfers afterwards
     // (a lost chunk, a wrong count, an abandoned transfer, page flips): same type, and the repeat stores a full page
     if block.len() == 16 {
@@ -491,6 +538,7 @@ pub fn run(ctx: &Ctx) -> Outcome {
         floor("listed pairs accepted and unlisted pairs rejected", report.get("accepted_listed") >= 11 * 8 && report.get("rejected_unlisted") > 500_000, report.get("accepted_listed")),
         floor("recorded type followed through failed / abandoned / completed pixel transfers, for every type", report.get("virtual_sign_type_through_pixel_transfers") == 44 && report.get("virtual_sign_repeat_stored_a_page") >= 22, report.get("virtual_sign_type_through_pixel_transfers")),
         floor("a sign configured by a controller of every other type, then by a controller of this type (11 x 10 x 2)", report.get("controller_reconfigurations") == 220, report.get("controller_reconfigurations")),
+        floor("a 16-byte chunk of neither family next to the block, for every type", report.get("virtual_sign_noise_chunk_next_to_the_block") >= 11 * 14, report.get("virtual_sign_noise_chunk_next_to_the_block")),
         floor("an unsupported block after a supported one, for every type", report.get("virtual_sign_unsupported_block_after_supported") >= 44, report.get("virtual_sign_unsupported_block_after_supported")),
         floor("virtual sign reconfigured from every other type (11 x 10 x 2 histories)", report.get("virtual_sign_reconfigurations") == 220, report.get("virtual_sign_reconfigurations")),
         floor("virtual sign configured with every type's block", report.get("virtual_sign_configurations") >= 11, report.get("virtual_sign_configurations")),
